@@ -10,9 +10,9 @@ import (
 
 // The tokens a [[ ]] expression is built from. Words first (verifCondWords of
 // them), then unary operators, binary operators, connectives.
-var verifCondToks = [...]string{`"$a"`, `"$b"`, "x", `""`, "-n", "-z", "==", "!=", "<", "!", "&&", "||", "(", ")"}
+var verifCondToks = [...]string{`"$a"`, `"$b"`, "x", `""`, "$((i+=1))", "-n", "-z", "==", "!=", "<", "!", "&&", "||", "(", ")"}
 
-const verifCondWords = 4
+const verifCondWords = 5
 
 // refCond evaluates a token sequence the way bash's parse.y (cond_or,
 // cond_and, cond_term) and execute_cond_node do. bad is set when bash reports
@@ -23,6 +23,9 @@ type refCond struct {
 	i    int
 	bad  bool
 	a, b string
+	// n counts the expansions of $((i+=1)); dead is set while the operand of
+	// a decided && or || is parsed, which bash does not expand
+	n, dead int
 	// eof: the end of the tokens was looked at; in prefix mode (see
 	// refCondViable) failures after that point do not count
 	eof, prefix bool
@@ -66,6 +69,11 @@ func (c *refCond) val(t string) string {
 		return c.b
 	case `""`:
 		return ""
+	case "$((i+=1))":
+		if c.dead == 0 {
+			c.n++
+		}
+		return string(rune('0' + c.n))
 	}
 	return t
 }
@@ -74,7 +82,13 @@ func (c *refCond) or() bool {
 	l := c.and()
 	if !c.bad && c.peek() == "||" {
 		c.i++
+		if l {
+			c.dead++
+		}
 		r := c.or()
+		if l {
+			c.dead--
+		}
 		return l || r
 	}
 	return l
@@ -84,7 +98,13 @@ func (c *refCond) and() bool {
 	l := c.term()
 	if !c.bad && c.peek() == "&&" {
 		c.i++
+		if !l {
+			c.dead++
+		}
 		r := c.and()
+		if !l {
+			c.dead--
+		}
 		return l && r
 	}
 	return l
@@ -147,17 +167,18 @@ func (c *refCond) term() bool {
 	return false
 }
 
-// refCondEval returns the exit status of [[ toks ]] and whether bash accepts it.
-func refCondEval(toks []string, a, b string) (status int, ok bool) {
+// refCondEval returns the exit status of [[ toks ]], how often $((i+=1)) was
+// expanded, and whether bash accepts the expression.
+func refCondEval(toks []string, a, b string) (status, n int, ok bool) {
 	c := &refCond{toks: toks, a: a, b: b}
 	v := c.or()
 	if c.bad || c.i != len(toks) {
-		return 2, false
+		return 2, 0, false
 	}
 	if v {
-		return 0, true
+		return 0, c.n, true
 	}
-	return 1, true
+	return 1, c.n, true
 }
 
 // refCondViable: some continuation of the tokens is accepted by bash.
@@ -183,9 +204,9 @@ func Verif_c26_cond() {
 	}
 	a := verifCondVals[verifChoice("a", 3)]
 	b := verifCondVals[verifChoice("b", 2)]
-	want, ok := refCondEval(toks, a, b)
+	want, wantN, ok := refCondEval(toks, a, b)
 	verifAssume(ok)
-	src := "a=" + a + "; b=" + b + "\n[[ " + strings.Join(toks, " ") + " ]]\n"
+	src := "i=0; a=" + a + "; b=" + b + "\n[[ " + strings.Join(toks, " ") + " ]]\nst=$?; echo $i; exit $st\n"
 	f, err := syntax.NewParser().Parse(strings.NewReader(src), "")
 	verifAssert(err == nil, "a [[ ]] expression bash accepts is rejected")
 	if err != nil {
@@ -203,6 +224,7 @@ func Verif_c26_cond() {
 	verifObserve("src", src)
 	verifObserve("status", string(rune(0x30+got)))
 	verifAssert(got == want, "[[ ]]: exit status differs from bash's grammar and evaluation")
+	verifAssert(out.String() == string(rune('0'+wantN))+"\n", "[[ ]]: an operand was expanded that bash does not expand (or the reverse)")
 	verifReach("end")
 }
 
